@@ -106,6 +106,9 @@ def malloc_kind(name):
     m = re.match(r'_ZN7awkward6kernel6mallocI(\w)E', name)
     if m and m.group(1) in MANGLED_ELEM:
         return MANGLED_ELEM[m.group(1)]
+    m = re.match(r'_ZN7awkward6kernel6mallocISt7complexI([df])EE', name)
+    if m:
+        return MANGLED_ELEM[m.group(1)]          # an array of complex numbers as an array of (re, im) pairs of its component type
     raise Unsupported('kernel::malloc of unknown element type: ' + name)
 
 
